@@ -42,7 +42,9 @@ xpath_functions: Final = _plugin_manager.xpath_functions
 # helper
 
 
-_match_number = re.compile(r"\s*-?(\d+(\.\d*)?|\.\d+)\s*").fullmatch
+_match_number = re.compile(
+    r"[ \t\r\n]*-?([0-9]+(\.[0-9]*)?|\.[0-9]+)[ \t\r\n]*"
+).fullmatch
 
 
 def _to_number(value: Any) -> float:
